@@ -57,15 +57,19 @@ pub fn entry_data<'a>(b: &'a [u8], e: &TarEntry) -> &'a [u8] {
 }
 
 /// header + padded data of a regular-file entry (GNU magic, like the writer's)
-pub fn make_entry(name: &str, data: &[u8]) -> Vec<u8> {
+pub fn make_entry(name: &[u8], data: &[u8]) -> Vec<u8> {
+	make_entry_typed(name, data, b'0')
+}
+
+pub fn make_entry_typed(name: &[u8], data: &[u8], typeflag: u8) -> Vec<u8> {
 	let mut h = vec![0u8; 512];
-	h[..name.len()].copy_from_slice(name.as_bytes());
+	h[..name.len()].copy_from_slice(name);
 	h[100..108].copy_from_slice(b"0000644\0");
 	h[108..116].copy_from_slice(b"0000000\0");
 	h[116..124].copy_from_slice(b"0000000\0");
 	h[124..136].copy_from_slice(format!("{:011o}\0", data.len()).as_bytes());
 	h[136..148].copy_from_slice(b"00000000000\0");
-	h[156] = b'0';
+	h[156] = typeflag;
 	h[257..265].copy_from_slice(b"ustar  \0");
 	let c = cksum(&h);
 	h[148..156].copy_from_slice(format!("{:06o}\0 ", c).as_bytes());
@@ -78,10 +82,15 @@ pub fn make_entry(name: &str, data: &[u8]) -> Vec<u8> {
 }
 
 /// Rebuilds an archive from entries (name, data), each with a fresh header, plus the end marker.
-pub fn rebuild(entries: &[(String, Vec<u8>)]) -> Vec<u8> {
+pub fn rebuild(entries: &[(Vec<u8>, Vec<u8>)]) -> Vec<u8> {
 	let mut out = Vec::new();
 	for (n, d) in entries {
-		out.extend_from_slice(&make_entry(n, d));
+		// a name ending in '/' is written as a directory member (no data)
+		if n.ends_with(b"/") && d.is_empty() {
+			out.extend_from_slice(&make_entry_typed(n, d, b'5'));
+		} else {
+			out.extend_from_slice(&make_entry(n, d));
+		}
 	}
 	out.extend_from_slice(&[0u8; 1024]);
 	out
